@@ -225,6 +225,17 @@ theorem not_any_array (hw : 0 < w) {n : Nat} {a : Words w} (hl : a.length = nwor
   rw [get_eq_bit hw, bit_not_len hw hl, get_eq_bit hw]
   simp [hi]
 
+/-- `get` after every operation on *arbitrary* arrays of equal length (no padding hypothesis):
+membership is computed bit-wise whatever the padding holds; only `==` and `hash` need `Wf`. -/
+theorem get_ops_any_array (hw : 0 < w) {n : Nat} (a b : Words w) (hl : a.length = b.length)
+    (hn : a.length = nwords n w) (i : Nat) :
+    get (or a b) i = (get a i || get b i) ∧ get (and a b) i = (get a i && get b i) ∧
+    get (xor a b) i = (get a i ^^ get b i) ∧ (i < n → get (not n a) i = !get a i) ∧
+    ∀ j v, j / w < a.length → get (set a j v) i = if i = j then v else get a i := by
+  simp only [get_eq_bit hw]
+  refine ⟨bit_or a b hl i, bit_and a b hl i, bit_xor a b hl i, fun hi => ?_, fun j v hj => bit_set hw a j v hj i⟩
+  rw [bit_not_len hw hn]; simp [hi]
+
 /-- `init` builds a well-formed array with `get = f` from any predicate (this is the
 canonical rebuild used by the correspondence: `init(λ e. b.get(e))`). -/
 theorem init_spec (hw : 0 < w) (n : Nat) (f : Nat → Bool) :
